@@ -15,6 +15,12 @@ func replacementTarget(in *Interp, f *ssa.Function) string {
 		return ""
 	}
 	for _, c := range fd.Doc.List {
+		if i := strings.Index(c.Text, "verif:replace! "); i >= 0 {
+			// replacement that the native twin reproduces with the real callee (same observable behaviour)
+			t := strings.TrimSpace(c.Text[i+len("verif:replace! "):])
+			in.replaceCompat[t] = true
+			return t
+		}
 		if i := strings.Index(c.Text, "verif:replace "); i >= 0 {
 			return strings.TrimSpace(c.Text[i+len("verif:replace "):])
 		}
